@@ -171,7 +171,8 @@ PTRFN = ['cJSONUtils_GetPointerCaseSensitive', 'get_item_from_pointer', 'decode_
 for K, P in ((2, 4), (2, 5), (3, 5), (2, 6)):
     for shape in range(6):
         QM(('C15',), 'ptr.resolve.K%dP%d.S%d' % (K, P, shape), 'harness/pointer.c', defs=['-DK=%d' % K, '-DP=%d' % P, '-DMODE=0', '-DSHAPE=%d' % shape], unwind=K + 2, link=['cJSON.c'],
-           unwindset=ML(K * K + K + 3, 50) + ['strcmp.0:4', 'get_item_from_pointer.0:%d' % (K + 2), 'get_item_from_pointer.1:%d' % (P + 2), 'get_item_from_pointer.2:%d' % (P + 2), 'decode_array_index_from_pointer.0:%d' % (P + 2),
+           unwindset=ML(K * K + K + 3, 50) + ['strcmp.0:4', 'get_item_from_pointer.0:%d' % (P + 2), 'get_item_from_pointer.1:%d' % (P + 2), 'get_item_from_pointer.2:%d' % (P + 2), 'get_item_from_pointer.3:%d' % (P + 2),   # one bound for all its loops: their numbering changes with harmless rewrites
+                                                'decode_array_index_from_pointer.0:%d' % (P + 2),
                                                 'compare_pointers.0:4', 'get_array_item.0:%d' % (K + 2), 'ref_resolve.0:%d' % (P + 2), 'ref_resolve.1:%d' % (P + 2), 'ref_resolve.2:4', 'ref_resolve.3:%d' % (K + 2), 'ref_resolve.4:%d' % (P + 2)],
            cost=K * P, tiers=('quick', 'thorough') if (K, P) == (2, 5) else ('thorough',), functions=PTRFN, timeout=1800)
 for K in (2, 3, 4):
